@@ -272,6 +272,7 @@ func paramWritten(p *ssa.Parameter) bool { return elemWritten(p) }
 
 // touchers groups accesses by "Struct.field" -> function name -> kinds.
 func (c *Ctx) touchers(structName, field string) map[string][]string {
+	c.vmModel() // names the VM's helper closures by role before functions are rendered
 	out := map[string]map[string]bool{}
 	for _, a := range c.fieldAccesses() {
 		if a.Struct != structName || a.Field != field {
